@@ -290,11 +290,32 @@ def shm_dir():
     global _SHM
     if _SHM is None or not os.path.isdir(_SHM) or not _SHM.endswith("-%d" % os.getpid()):
         _SHM = "/dev/shm/vf-%d-orm3-%d" % (os.getppid(), os.getpid())
+        cleanup_stale_shm()
         os.makedirs(_SHM, exist_ok=True)
         import atexit
 
         atexit.register(cleanup_shm, _SHM, os.getpid())
     return _SHM
+
+
+def cleanup_stale_shm():
+    """remove scratch dirs of this module whose owning process is gone (pool
+    workers are terminated without running atexit handlers)"""
+    import glob
+
+    for d in glob.glob("/dev/shm/vf-*-orm3-*"):
+        try:
+            pid = int(d.rsplit("-", 1)[1])
+        except ValueError:
+            continue
+        if pid == os.getpid():
+            continue
+        try:
+            os.kill(pid, 0)
+        except ProcessLookupError:
+            shutil.rmtree(d, ignore_errors=True)
+        except PermissionError:
+            pass
 
 
 def cleanup_shm(path=None, pid=None):
@@ -372,4 +393,4 @@ class FileDb:
             self._rm()
 
 
-__all__ = ["world", "World", "SqlLog", "FileDb", "Session", "shm_dir", "cleanup_shm"]
+__all__ = ["world", "World", "SqlLog", "FileDb", "Session", "shm_dir", "cleanup_shm", "cleanup_stale_shm"]
